@@ -595,6 +595,21 @@ def smi_of(m, chain):
 
 
 def search_molecule(ck, tag, smi, m, rng, budget_params):
+    """the oracles of one molecule; an exception escaping from the fingerprint code on documented parameters is a
+    counterexample as well"""
+    try:
+        return search_molecule_(ck, tag, smi, m, rng, budget_params)
+    except Exception as e:
+        import traceback
+        tb = traceback.format_exc().strip().split('\n')
+        cx(ck, f'exception:{tag}', f'a fingerprint function raised {type(e).__name__} on documented parameters', {'molecule': tag, 'radii': list(budget_params)},
+           f'{type(e).__name__}: {e}', 'a value', 'no exception for 1 <= min_radius <= max_radius, length 2^k, number_active_bits 1..4, number_bit_pairs 0..5',
+           replay_py=None)
+        ck.extra.setdefault('search_exceptions', []).append(tb[-4:])
+        return 0
+
+
+def search_molecule_(ck, tag, smi, m, rng, budget_params):
     """returns number of oracle evaluations"""
     rp = (f"from chython import smiles; m = smiles({smi!r}); " if smi else '')
     adj = {n: list(nb) for n, nb in m._bonds.items()}
@@ -614,14 +629,22 @@ def search_molecule(ck, tag, smi, m, rng, budget_params):
                               f'{len(exp)} undirected simple paths', 'depth-first brute-force path enumerator',
                               replay_py=rp + f"print(sorted(m._chains({lo}, {hi})))" if smi else None)
             continue
-        # (2) _fragments groups them by direction-independent key; counts as in the oracle
-        cnt = brute_fragment_counts(m, adj, lo, hi)
+        # (2) _fragments groups them by direction-independent key; counts as in the oracle.  Which of the two spellings
+        #     of a key the code keeps is not part of the property: keys are compared up to reversal (one spelling each)
+        cnt_u = brute_fragment_counts(m, adj, lo, hi)
         fr = m._fragments(lo, hi)
-        if {k: len(v) for k, v in fr.items()} != dict(cnt):
-            cx(ck, f'fragments:{tag}:{lo}:{hi}', '_fragments keys / multiplicities differ from the path oracle',
-                              {'molecule': tag, 'min_radius': lo, 'max_radius': hi}, len(fr), len(cnt), 'brute-force fragment counter',
+        got_u = Counter()
+        for k, v in fr.items():
+            got_u[max(k, k[::-1])] += len(v)
+        ids_ = my_identifiers(m)
+        stored_ok = all(tuple(x for i, a in enumerate(c) for x in (([int(m._bonds[c[i - 1]][a])] if i else []) + [ids_[a]])) == k
+                        for k, v in fr.items() for c in v)
+        if got_u != cnt_u or len(got_u) != len(fr) or not stored_ok:
+            cx(ck, f'fragments:{tag}:{lo}:{hi}', '_fragments keys / multiplicities differ from the path oracle (keys up to reversal), or a stored chain does not spell its key',
+                              {'molecule': tag, 'min_radius': lo, 'max_radius': hi}, len(fr), len(cnt_u), 'brute-force fragment counter',
                               replay_py=rp + f"print(m._fragments({lo}, {hi}))" if smi else None)
             continue
+        cnt = {k: len(v) for k, v in fr.items()}        # the spellings the code chose, with the (verified) multiplicities
         # (3) linear_hash_set == {hash((*key, c)) : c < min(count, cap)}
         for nbp in rng.sample([0, 1, 2, 3, 4, 5], 2):
             cap = nbp or 999_999_999
